@@ -215,6 +215,8 @@ def e2e_cases(shard: dict, tier: str):
             for ics in (None, 1):
                 for ocs in (vrl, 2 ** 16):
                     yield {'e2e': name, 'vrl': vrl, 'ics': ics, 'ocs': ocs}
+            # label and file header handed over as ready-made objects instead of their parameters
+            yield {'e2e': name, 'vrl': vrl, 'ics': None, 'ocs': 2 ** 16, 'objects': True}
         # the label is re-configured through its public attributes after the file object was created
         for other in (20, 64, 8192, 16384):
             if other != vrl:
@@ -257,6 +259,8 @@ def run_e2e(case: dict) -> dict:
         sp['sul'] = {'max_record_length': case['created_with'], 'set_identifier': 'FIRST-ID', 'sul_sequence_number': 7}
         sp['ops'].append({'op': 'sul', 'kw': {'max_record_length': case['vrl'], 'set_identifier': 'E2E-SET',
                                                'sequence_number': 1}})
+    if case.get('objects'):
+        sp['object_route'] = True
     sp['write'] = {'output_chunk_size': case['ocs']}
     if case['ics']:
         sp['write']['input_chunk_size'] = case['ics']
